@@ -117,6 +117,10 @@ impl<T, S: NodeState> Node<T, S> {
             let segment_end = path.iter().position(|&b| b == b'/').unwrap_or(path.len());
 
             let segment = &path[..segment_end];
+            if segment.is_empty() {
+                continue;
+            }
+
             if !Self::check_constraint(Some(&child.state.constraint), segment, constraints) {
                 continue;
             }
@@ -199,6 +203,9 @@ impl<T, S: NodeState> Node<T, S> {
             let segment_end = path.iter().position(|&b| b == b'/').unwrap_or(path.len());
 
             let segment = &path[..segment_end];
+            if segment.is_empty() {
+                continue;
+            }
 
             parameters.push((&child.state.name, std::str::from_utf8(segment).ok()?));
 
